@@ -59,6 +59,8 @@ def gen_scenario(rng, profile=None):
     if scn["delete_old"]:
         scn["delete_old_all"] = p.get("delete_old_all", rng.random() < 0.5)
     scn["plan"] = p.get("plan") or [{"inp": "infretis.toml", "steps": steps}]
+    # a collective-variable column of large magnitude next to the order parameter (energy-like values)
+    scn["big_cv"] = p.get("big_cv", rng.choice([0.0] * 8 + [-23456.789012, 250000.125, -1500000.5]))
     scn["keep_aux"] = p.get("keep_aux", rng.random() < 0.15)    # output.keep_traj_fnames = [".aux"]
     scn["stale_data_file"] = p.get("stale_data_file", rng.random() < 0.15)
     if scn["engine"] == "turtlemd":
@@ -73,6 +75,7 @@ def gen_scenario(rng, profile=None):
         scn["workers"] = min(scn["workers"], 7)
         scn["integrator"] = p.get("integrator", "LangevinInertia")
         scn["rounded_op"] = bool(p.get("rounded_op", False))
+        scn["grid_op"] = bool(p.get("grid_op", False))
     return scn
 
 
@@ -124,6 +127,8 @@ def build_config(scn):
     }
     eng = {"class": "LatticeEngine", "module": LATTICE_MODULE, "wall": scn["wall"],
            "timestep": 1.0, "subcycles": 1}
+    if scn.get("big_cv"):
+        eng["big_cv"] = scn["big_cv"]
     if scn.get("keep_aux"):
         eng["aux"] = True
         cfg["output"]["keep_traj_fnames"] = [".aux"]
@@ -177,7 +182,8 @@ def build_rundir(scn, rundir):
         with open(os.path.join(pdir, "order.txt"), "w") as fh:
             fh.write("#       time      orderparam\n")
             for j, x in enumerate(orders):
-                fh.write(f"{j:>10d} {float(x):>12.6f}\n")
+                cv = f" {scn['big_cv'] + x:>12.6f}" if scn.get("big_cv") else ""
+                fh.write(f"{j:>10d} {float(x):>12.6f}{cv}\n")
     return cfg
 
 
@@ -194,6 +200,14 @@ def build_rundir_turtle(scn, rundir):
                      "def _rounded(self, system):\n"
                      "    return [round(float(x), 6) for x in _orig_calculate(self, system)]\n\n\n"
                      "PositionX.calculate = _rounded\n")
+    if scn.get("grid_op"):
+        # an order parameter that often lies 3e-7 above a multiple of 0.01 (the example's interfaces are
+        # such multiples): in memory it is beyond the interface, the six decimals of order.txt are not
+        with open(os.path.join(rundir, "orderp.py"), "a") as fh:
+            fh.write("\n\n_orig_calculate = PositionX.calculate\n\n\n"
+                     "def _grid(self, system):\n"
+                     "    return [round(float(x), 2) + 3e-7 for x in _orig_calculate(self, system)]\n\n\n"
+                     "PositionX.calculate = _grid\n")
     with open(os.path.join(REPO, "test", "simulations", "data", "wf.toml"), "rb") as fh:
         cfg = tomli.load(fh)
     cfg["runner"]["workers"] = scn["workers"]
